@@ -252,7 +252,9 @@ class Environment:
                                                 'action': Environment._get_action_name(event.action),
                                                 'message': event.message,
                                                 'event_type': event.event_type,
-                                                'status': event.status}
+                                                # The event is traced before it is executed, a
+                                                # cancelled event will not call its action.
+                                                'status': 'cancelled' if event.cancelled else event.status}
         self._event_index += 1
 
     @staticmethod
